@@ -1,5 +1,6 @@
 import Swat4.Lemmas.StoreRefine
 import Swat4.Lemmas.StoreDrv
+import Swat4.Lemmas.QueueRefine
 /-!
 # C11 — The registry behaves as a versioned map with exact query predicates
 
@@ -8,6 +9,12 @@ is the Redis-level model of `repositories/servers`; `AbsState` (`Spec/Registry.l
 specification: a map `address ↦ (record, updatedAt)` with `add / update / remove / get /
 filter / count / countByStatus`.  `Rel` relates the two; every call run alone refines its
 specification, `Filter` returns exactly the records satisfying `FilterSet.pred`.
+
+Sections 6–9 do the same for the other two repositories: `RelI` relates `instances:items / updated` to
+`AbsState.instances`, `RelQ` relates `probes:items / queue` to `AbsState.queue` (a list read as a finite map
+`id ↦ item`); every call of the instance / queue machine (`Model/QueueMachine.lean`, `runQ`) run alone refines
+`insAdd / insGet / insRemove / insClear / insCount / enqueue / popMany / qCount`, which are the `Call.exec` steps
+the use-case programs of C04, C05, C12–C16 are built from.
 -/
 namespace Swat4.C11
 open Swat4 Swat4.RStore Std
@@ -201,5 +208,188 @@ example : (runWriter {} 5 (Writer.start ⟨.add, demoServer, fun _ => none⟩ 0)
   have h := (write_refines consistent_empty Swat4.rel_empty 5 ⟨.add, demoServer, fun _ => none⟩ 0 1 (by simp)).1
   rw [h]
   simp [specWrite, AbsState.add, AbsState.getRow, AbsState.save, demoServer]
+
+/-! ## 6. instance table and probe queue: abstraction relations -/
+
+/-- `RelI st a`: the specification's row of every instance id is the stored address with its `instances:updated` score -/
+theorem relI_iff (st : RStore) (a : AbsState) :
+    RelI st a ↔ ∀ id : Nat, a.instances[id]? = (st.insItems[id]?).map fun ad => (ad, (st.insUpdated[id]?).getD 0) :=
+  Iff.rfl
+
+/-- `RelQ st a`, read as "the specification's queue is the finite map the store holds": no id occurs twice, an item
+is queued iff `probes:items` has its payload and deadline *and* `probes:queue` has its ready score under the item's
+id, and `nextId` is strictly above every id in either key (so the id the next `enqueue` draws is fresh).  The
+definition states the second part with `List.find?` (lookup by id); the two forms are equivalent. -/
+theorem relQ_iff (st : RStore) (a : AbsState) :
+    RelQ st a ↔
+      (a.queue.map (·.id)).Nodup ∧
+      (∀ x : QItem, x ∈ a.queue ↔ st.pItems[x.id]? = some (x.probe, x.expires) ∧ st.pQueue[x.id]? = some x.ready) ∧
+      (∀ id : Nat, id ∈ st.pItems → id < a.nextId) ∧ (∀ id : Nat, id ∈ st.pQueue → id < a.nextId) :=
+  relQ_iff_mem st a
+
+/-- lookup by id, as in the definition: what `find?` returns for `id` is the item assembled from the two keys -/
+theorem relQ_find {st : RStore} {a : AbsState} (h : RelQ st a) (id : Nat) :
+    a.queue.find? (fun x => x.id == id) =
+      match st.pItems[id]?, st.pQueue[id]? with
+      | some pe, some r => some ⟨id, pe.1, r, pe.2⟩
+      | _, _ => none :=
+  h.find id
+
+/-- a store determines the instance part of the specification state it stands for -/
+theorem relI_unique {st : RStore} {a : AbsState} (h : RelI st a) : a.instances = absInstances st := h.instances_eq
+
+/-- the empty keyspace stands for the empty instance table and the empty queue with `nextId = 0` -/
+theorem relIQ_empty : RelI {} {} ∧ RelQ {} {} := ⟨relI_empty, relQ_empty⟩
+
+/-! ## 7. instance table -/
+
+/-- `Add` (`HSET instances:items` + `ZADD instances:updated now`, one batch) refines `AbsState.insAdd`
+(one command suffices: `insAdd_refines_aux`) -/
+theorem insAdd_refines {st : RStore} {a : AbsState} (hc : Consistent st) (hrel : RelI st a) (clock : Int) (fresh : Nat)
+    (i : Instance) {fuel : Nat} (hf : 3 ≤ fuel) :
+    (runQ st clock fresh (.insAdd i.id i.addr) (QOp.insAdd i.id i.addr).begin fuel).2.1 = .done .unit ∧
+    RelI (runQ st clock fresh (.insAdd i.id i.addr) (QOp.insAdd i.id i.addr).begin fuel).1 (a.insAdd clock i) ∧
+    Consistent (runQ st clock fresh (.insAdd i.id i.addr) (QOp.insAdd i.id i.addr).begin fuel).1 := by
+  obtain ⟨h1, h2, _⟩ := insAdd_refines_aux hrel clock fresh i (fuel := fuel) (by omega)
+  exact ⟨h1, h2, runQ_consistent hc _ _ _ _ _⟩
+
+/-- `Remove` (`HDEL` + `ZREM`, one batch) refines `AbsState.insRemove` -/
+theorem insRemove_refines {st : RStore} {a : AbsState} (hc : Consistent st) (hrel : RelI st a) (clock : Int) (fresh id : Nat)
+    {fuel : Nat} (hf : 3 ≤ fuel) :
+    (runQ st clock fresh (.insRemove id) (QOp.insRemove id).begin fuel).2.1 = .done .unit ∧
+    RelI (runQ st clock fresh (.insRemove id) (QOp.insRemove id).begin fuel).1 (a.insRemove id) ∧
+    Consistent (runQ st clock fresh (.insRemove id) (QOp.insRemove id).begin fuel).1 := by
+  obtain ⟨h1, h2, _⟩ := insRemove_refines_aux hrel clock fresh id (fuel := fuel) (by omega)
+  exact ⟨h1, h2, runQ_consistent hc _ _ _ _ _⟩
+
+/-- `Get` (`HGET instances:items`) returns what `AbsState.insGet` returns, incl. *instance not found* -/
+theorem insGet_refines {st : RStore} {a : AbsState} (hrel : RelI st a) (id : Nat) : insGetM st id = a.insGet id :=
+  insGet_refines_aux hrel id
+
+/-- `Clear` (`ZRANGEBYSCORE instances:updated -inf b|+inf`, then `ZREM … + HDEL …` unless nothing was selected)
+refines `AbsState.insClear`: it removes exactly the rows with update time `≤ b` — the bound is inclusive at both
+levels, as coded — or all rows when no bound is given, and the `HDEL` reply it returns is the number of rows removed -/
+theorem insClear_refines {st : RStore} {a : AbsState} (hc : Consistent st) (hrel : RelI st a) (clock : Int) (fresh : Nat)
+    (before : GoTime) {fuel : Nat} (hf : 3 ≤ fuel) :
+    (runQ st clock fresh (.insClear before) (QOp.insClear before).begin fuel).2.1 = .done (.count (a.insClear before).2) ∧
+    RelI (runQ st clock fresh (.insClear before) (QOp.insClear before).begin fuel).1 (a.insClear before).1 ∧
+    Consistent (runQ st clock fresh (.insClear before) (QOp.insClear before).begin fuel).1 := by
+  obtain ⟨h1, h2, _⟩ := insClear_refines_aux hc hrel clock fresh before (fuel := fuel) (by omega)
+  exact ⟨h1, h2, runQ_consistent hc _ _ _ _ _⟩
+
+/-- what `insClear` removes, spelled out: a row survives iff a bound is given and its update time is after the bound -/
+theorem insClear_spec (a : AbsState) (before : GoTime) (id : Nat) :
+    (a.insClear before).1.instances[id]? =
+      if (∃ v : Addr × Int, a.instances[id]? = some v ∧ ∀ b, before = some b → v.2 ≤ b) then none else a.instances[id]? := by
+  rw [insClear_eq]
+  show ((doomed a before).foldl (fun m kv => m.erase kv.1) a.instances)[id]? = _
+  rw [eraseFold_getElem?]
+  by_cases h : id ∈ (doomed a before).map (·.1)
+  · rw [if_pos h, if_pos (mem_doomed_keys.1 h)]
+  · rw [if_neg h, if_neg (fun hh => h (mem_doomed_keys.2 hh))]
+
+/-- `Count` (`HLEN instances:items`) = number of rows -/
+theorem insCount_refines {st : RStore} {a : AbsState} (hrel : RelI st a) : st.insItems.size = a.insCount :=
+  insCount_refines_aux hrel
+
+/-! ## 8. probe queue -/
+
+/-- `enqueue` refines `AbsState.enqueue`: when both bounds are explicit and `after ≥ before` no command is issued and
+neither level changes; otherwise one batch `HSET probes:items id` + `ZADD probes:queue ready id` with the fresh id
+`fresh = a.nextId` and `ready = after`, or the clock when `after` is zero; the id counters stay equal -/
+theorem enqueue_refines {st : RStore} {a : AbsState} (hc : Consistent st) (hrel : RelQ st a) (clock : Int) (fresh : Nat)
+    (hfresh : fresh = a.nextId) (p : Probe) (after before : GoTime) {fuel : Nat} (hf : 3 ≤ fuel) :
+    (runQ st clock fresh (.enqueue p after before) (QOp.enqueue p after before).begin fuel).2.1 = .done .unit ∧
+    RelQ (runQ st clock fresh (.enqueue p after before) (QOp.enqueue p after before).begin fuel).1 (a.enqueue clock p after before) ∧
+    (runQ st clock fresh (.enqueue p after before) (QOp.enqueue p after before).begin fuel).2.2 = (a.enqueue clock p after before).nextId ∧
+    Consistent (runQ st clock fresh (.enqueue p after before) (QOp.enqueue p after before).begin fuel).1 := by
+  obtain ⟨h1, h2, h3⟩ := enqueue_refines_aux hrel clock fresh hfresh p after before (fuel := fuel) (by omega)
+  exact ⟨h1, h2, h3, runQ_consistent hc _ _ _ _ _⟩
+
+/-- the dropped case separately: nothing happens at either level -/
+theorem enqueue_dropped (st : RStore) (a : AbsState) (clock : Int) (fresh : Nat) (p : Probe) (af bf : Int) (h : af ≥ bf)
+    (fuel : Nat) :
+    runQ st clock fresh (.enqueue p (some af) (some bf)) (QOp.enqueue p (some af) (some bf)).begin fuel = (st, .done .unit, fresh) ∧
+    a.enqueue clock p (some af) (some bf) = a :=
+  ⟨runQ_enqueue_drop st clock fresh p af bf h fuel, enqueue_drop a clock p af bf h⟩
+
+/-- `ZRANGEBYSCORE probes:queue -inf now LIMIT 0 k` returns the ids of the first `k` items of `readySorted`, in order:
+both levels order by `(ready, id)` -/
+theorem zrange_eq_ready {st : RStore} {a : AbsState} (hc : Consistent st) (hrel : RelQ st a) (now : Int) (k : Nat) :
+    zrangeUpTo st.pQueue (some now) (some k) = ((AbsState.readySorted a.queue now).take k).map (·.id) :=
+  zrange_eq_batch hc hrel now k
+
+/-- **`PopMany(n)` run alone refines `AbsState.popMany`** (sequential; interleavings are C12's subject): for any `n`
+and any number of rounds, within `2·ZCARD + 1` commands the machine ends in `done` with *the same list* of probes
+(not only the same multiset: both levels order by `(ready, id)`) and the same expired count, in a consistent store
+related to the specification's next state; the id counter and the instance keys are untouched -/
+theorem popMany_refines_set {st : RStore} {a : AbsState} (hc : Consistent st) (hrel : RelQ st a) (clock : Int) (fresh : Nat)
+    (n : Int) {fuel : Nat} (hf : 2 * st.pQueue.size + 1 ≤ fuel) :
+    ∃ (ps : List Probe) (e : Nat),
+      (runQ st clock fresh (.popMany n) (QOp.popMany n).begin fuel).2.1 = .done (.probes ps e) ∧
+      ps = (a.popMany clock n).2.1 ∧ e = (a.popMany clock n).2.2 ∧
+      RelQ (runQ st clock fresh (.popMany n) (QOp.popMany n).begin fuel).1 (a.popMany clock n).1 ∧
+      Consistent (runQ st clock fresh (.popMany n) (QOp.popMany n).begin fuel).1 ∧
+      (runQ st clock fresh (.popMany n) (QOp.popMany n).begin fuel).2.2 = fresh ∧
+      (a.popMany clock n).1.nextId = a.nextId := by
+  obtain ⟨h1, h2, h3, h4, _, _⟩ := popMany_refines_aux hc hrel clock fresh n hf
+  exact ⟨_, _, h1, rfl, rfl, h2, h3, h4, popMany_nextId a clock n⟩
+
+/-- the statement asked for by the plan (results as multisets) follows -/
+theorem popMany_refines_perm {st : RStore} {a : AbsState} (hc : Consistent st) (hrel : RelQ st a) (clock : Int) (fresh : Nat)
+    (n : Int) {fuel : Nat} (hf : 2 * st.pQueue.size + 1 ≤ fuel) :
+    ∃ (ps : List Probe) (e : Nat),
+      (runQ st clock fresh (.popMany n) (QOp.popMany n).begin fuel).2.1 = .done (.probes ps e) ∧
+      ps.Perm (a.popMany clock n).2.1 ∧ e = (a.popMany clock n).2.2 ∧
+      RelQ (runQ st clock fresh (.popMany n) (QOp.popMany n).begin fuel).1 (a.popMany clock n).1 := by
+  obtain ⟨ps, e, h1, h2, h3, h4, _⟩ := popMany_refines_set hc hrel clock fresh n hf
+  exact ⟨ps, e, h1, h2 ▸ List.Perm.refl _, h3, h4⟩
+
+/-- `Count` (`ZCARD probes:queue`) = length of the specification's queue -/
+theorem qCount_refines {st : RStore} {a : AbsState} (hc : Consistent st) (hrel : RelQ st a) : st.pQueue.size = a.qCount :=
+  qCount_refines_aux hc hrel
+
+/-! ## 9. histories of instance / queue calls -/
+
+/-- one call from related states: related states again and the same reply -/
+theorem C11_queue_step {m : SeqQ} {s : AbsState × Int} (h : SimQ m s) (c : QCall) :
+    SimQ (stepQM m c).1 (stepQS s c).1 ∧ (stepQM m c).2 = (stepQS s c).2 :=
+  stepQ_sim h c
+
+/-- **C11, instance table and probe queue.**  For every history of `Add / Get / Remove / Clear / Count` on instances,
+`enqueue / PopMany / Count` on probes and clock advances, run sequentially from the empty keyspace, the Redis-level
+machine (every call run alone with budget `2·ZCARD + 3`) gives reply by reply exactly what `Call.exec` gives on the
+specification state — `PopMany` batches as equal lists — and never runs out of budget. -/
+theorem C11_queue_main (clock : Int) (cs : List QCall) :
+    runHistQM ⟨{}, clock, 0⟩ cs = runHistQS ({}, clock) cs :=
+  runHistQ_sim (simQ_init clock) cs
+
+/-- … and from any pair of related states, with the relations re-established at the end of every prefix -/
+theorem C11_queue_from {m : SeqQ} {s : AbsState × Int} (h : SimQ m s) (cs : List QCall) :
+    runHistQM m cs = runHistQS s cs :=
+  runHistQ_sim h cs
+
+/-- no reply of the machine side of a history is `hung` -/
+theorem C11_queue_no_hung {m : SeqQ} {s : AbsState × Int} (h : SimQ m s) (c : QCall) :
+    (stepQM m c).2 ≠ .hung := by
+  rw [(stepQ_sim h c).2]
+  cases c <;> simp [stepQS]
+
+/-! ### non-vacuity -/
+
+def demoProbe : Probe := ⟨⟨16843009, 10480⟩, 10481, .details, 0, 3⟩
+
+/-- two enqueues (the second ready earlier), one not yet ready, and a `PopMany(5)` at clock 10: the machine pops the
+two ready ones, earlier-ready first, and leaves the third -/
+example :
+    runHistQM ⟨{}, 10, 0⟩ [.enqueue demoProbe none none, .enqueue { demoProbe with retries := 1 } (some 7) none,
+        .enqueue { demoProbe with retries := 2 } (some 11) (some 12), .enqueue demoProbe (some 12) (some 12),
+        .qCount, .popMany 5, .qCount] =
+      [.unit (.ok ()), .unit (.ok ()), .unit (.ok ()), .unit (.ok ()), .size 3,
+       .probes (.ok ([{ demoProbe with retries := 1 }, demoProbe], 0)), .size 1] := by
+  rw [C11_queue_main]
+  rfl
+
+example : SimQ ⟨{}, 0, 0⟩ ({}, 0) := simQ_init 0
 
 end Swat4.C11
